@@ -27,10 +27,29 @@ def attribute_part(out):
     R = mcheck.MRun(vc.REPO, sc, 'codegen', max_depth=60)
     q = 2 if tier == 'quick' else 3
     cands = R.run_parallel([(K.k_variable_field, (q,)), (K.k_input_member, ('struct', q)), (K.k_input_member, ('oneof', q))])
+    wire = [c for c in cands if c['prop'] == 'C11']
     cands = [c for c in cands if c['prop'] in ('C04', 'C13', 'C12')]
     C = consumer.Consumer(sc)
     seen = set()
     replayed = 0
+    # a member whose serde name is not its GraphQL name serializes under the wrong key: the wire-name claims of the same
+    # kernels matter here as well (replayed with the model's name and a few spellings the case conversions change)
+    done_sites = set()
+    for c in wire:
+        site = C11.SITE_OF.get(c['kernel'])
+        if site is None or site in done_sites:
+            continue
+        done_sites.add(site)
+        n = (c.get('model') or {}).get('name') or (c.get('model') or {}).get('graphql_name')
+        names = ([n] if n and C11.NAME_RE.match(n) else []) + ['snake_case', 'PascalCase', 'externalID', 'type']
+        for name in names[:4]:
+            ok, desc, schema, query = C11.confirm(C, site, name)
+            replayed += 1
+            if not ok:
+                out.violation(f'wire-name:{site}', desc, dict(kind='wire-name', site=site, name=name, schema=schema, query=query, claim=c['what']))
+                break
+        else:
+            out.inconc(f"{c['kernel']}: wire-name counterexample {c['what']} was not reproduced natively with {names[:4]}")
     for c in cands:
         if (c['kernel'], c['what']) in seen or len(seen) >= 3:
             continue
@@ -91,6 +110,11 @@ def replay(path):
     def other(p):
         import consumer
         C = consumer.Consumer(vc.scratch(PROP + 'r'))
+        if p.get('kind') == 'wire-name':
+            import C11
+            ok, desc, _, _ = C11.confirm(C, p['site'], p['name'])
+            print(desc)
+            return 0 if ok else 1
         attrs = 'skip_serializing_none, ' if p['model'].get('skip_serializing_none') else ''
         err = C.build(p['schema'], p['query'], 'Q', 'q', attrs=attrs)
         if err:
